@@ -109,10 +109,27 @@ def deep_copy_is_an_equal_shaped_disjoint_relinked_tree(k: int, grand: bool, has
     point at the new parent, grids at the new owner, every location of the copy belongs to the copy's grid and the
     grid holds exactly the children's locations; the original tree is untouched."""
     k = choose(k, 0, 3)
-    assume(i0 != i1 and i0 != i2 and i1 != i2 and i0 != 9 and i1 != 9 and i2 != 9)
-    idx = [i0, i1, i2]
-    pw = [p0, p1, p2, p3]
+    # every child in a cell of its own (one path); children SHARING a cell - and so a location object - are the next lemma.
+    # (The spare cell (9, 9, 0) differs from every (i, 0, 0) in j: no hypothesis on i0..i2 is needed for it.)
+    assume(i0 != i1 and i0 != i2 and i1 != i2)
+    deep_copy_contract(k, grand, hasParent, viaPickle, [i0, i1, i2], [p0, p1, p2, p3], x, k + 1)
+
+
+@lemma(gen={"k": (2, 3), "i0": (-1, 1), "i1": (-1, 1), "i2": (-1, 1)})
+def deep_copy_of_children_that_share_a_cell_keeps_the_sharing(k: int, grand: bool, hasParent: bool, viaPickle: bool, i0: int, i1: int, i2: int, p0: float, p1: float, p2: float, p3: float, x: float):
+    """the same contract when two or all three children sit in the SAME cell of the parent's grid (the grid hands out one
+    location object per cell, so they share it - e.g. the components of a block that all sit at the block's centre): the
+    copies share ONE new location of the NEW grid, which holds as many locations as the original."""
+    k = choose(k, 2, 3)
+    assume(i0 == i1 or (k == 3 and (i0 == i2 or i1 == i2)))
+    ndistinct = 1 if (i0 == i1 and (k == 2 or i1 == i2)) else 2  # (at least one pair is equal)
+    deep_copy_contract(k, grand, hasParent, viaPickle, [i0, i1, i2], [p0, p1, p2, p3], x, ndistinct + 1)
+
+
+def deep_copy_contract(k, grand, hasParent, viaPickle, idx, pw, x, nloc):
+    """the contract of the two lemmas above; nloc = number of locations the root's grid holds (distinct cells + the spare one)"""
     root, g, kids, gkids, boss = mk_tree(k, grand, hasParent, idx, pw)
+    assert len(g._locations) == nloc, "(harness) the grid holds one location per occupied cell and the spare one"
     originals = [root] + kids + gkids + ([boss] if hasParent else [])
     cp = pickle.loads(pickle.dumps(root)) if viaPickle else copy.deepcopy(root)
     # --- the root of the copy
@@ -120,12 +137,12 @@ def deep_copy_is_an_equal_shaped_disjoint_relinked_tree(k: int, grand: bool, has
     assert len(cp._children) == k, "equal shape: same number of children"
     g2 = cp.spatialGrid
     assert not same(g2, g) and same(g2.armiObject, cp), "its own grid, owned by the copy"
-    assert len(g2._locations) == k + 1, "the copied grid holds the children's locations and the spare one"
+    assert len(g2._locations) == nloc, "the copied grid holds the children's locations and the spare one"
     assert same(g2._locations[(9, 9, 0)].grid, g2) and not same(g2._locations[(9, 9, 0)], g._locations[(9, 9, 0)]), "a location no child uses belongs to the new grid as well"
     if hasParent:
         assert cp.spatialLocator.grid is None and cp.spatialLocator.i == 2 and cp.spatialLocator.j == 3, "taken out of the model: a detached location"
         assert not same(cp.spatialLocator, root.spatialLocator)
-    assert not same(cp.p, root.p) and cp.p.power == p0 and not same(cp.p.flux, root.p.flux)
+    assert not same(cp.p, root.p) and cp.p.power == pw[0] and not same(cp.p.flux, root.p.flux)
     # --- the children
     for c in range(k):
         o = cp._children[c]
@@ -137,6 +154,8 @@ def deep_copy_is_an_equal_shaped_disjoint_relinked_tree(k: int, grand: bool, has
         assert same(loc.grid, g2) and loc.i == idx[c] and loc.j == 0 and loc.k == 0, "located at the same indices of the NEW grid"
         assert not same(loc, kids[c].spatialLocator)
         assert same(g2._locations[(idx[c], 0, 0)], loc), "the grid hands out the child's location for these indices"
+        for c2 in range(c):
+            assert same(loc, cp._children[c2].spatialLocator) == same(kids[c].spatialLocator, kids[c2].spatialLocator), "children share a location exactly as the originals do"
         assert not same(o.p, kids[c].p) and o.p.power == pw[c + 1]
         if c > 0 or not grand:
             assert len(o._children) == 0 and o.spatialGrid is None
@@ -153,7 +172,7 @@ def deep_copy_is_an_equal_shaped_disjoint_relinked_tree(k: int, grand: bool, has
         assert not same(o._children[0], o._children[1])
     # --- the original is as it was
     assert same(root.parent, boss) and same_seq(root._children, kids) and same(root.spatialGrid, g) and same(g.armiObject, root)
-    assert len(g._locations) == k + 1 and same(g._locations[(9, 9, 0)].grid, g)
+    assert len(g._locations) == nloc and same(g._locations[(9, 9, 0)].grid, g)
     for c in range(k):
         assert same(kids[c].parent, root) and same(kids[c].spatialLocator.grid, g) and same(g._locations[(idx[c], 0, 0)], kids[c].spatialLocator)
     if grand and k > 0:
@@ -163,7 +182,7 @@ def deep_copy_is_an_equal_shaped_disjoint_relinked_tree(k: int, grand: bool, has
         assert same_seq(boss._children, [root]) and same(root.spatialLocator.grid, boss.spatialGrid) and len(boss.spatialGrid._locations) == 1
     # --- later edits of one tree do not show in the other
     cp.p.flux[0] = x
-    assert root.p.flux[0] == p0
+    assert root.p.flux[0] == pw[0]
     if k > 0:
         cp._children.pop()
         assert len(root._children) == k
